@@ -65,6 +65,29 @@ func (c *Ctx) ruleReaderState() {
 		if pp != "annotations" && pp != "ignore" {
 			continue
 		}
+		// accumulator objects (a collector struct handed from helper to helper) are held to the same rule as
+		// captured variables: a field of an object that outlives the call is only ever extended by append
+		allInstrs(fn, func(b *ssa.BasicBlock, ins ssa.Instruction) {
+			st, ok := ins.(*ssa.Store)
+			if !ok {
+				return
+			}
+			fa, ok := st.Addr.(*ssa.FieldAddr)
+			if !ok || P.moduleStruct(deref(fa.X.Type())) == nil {
+				return
+			}
+			if _, local := fa.X.(*ssa.Alloc); local {
+				return // object under construction in this function
+			}
+			n++
+			fname := deref(fa.X.Type()).Underlying().(*types.Struct).Field(fa.Field).Name()
+			cons := fmt.Sprintf("%s#.%s", FuncName(fn), fname)
+			if isAppendOfField(P, st.Val, fa) {
+				c.ok("READER-STATE", cons, P.Pos(st.Pos()), "append-only accumulator field")
+			} else {
+				c.fail("READER-STATE", cons, P.Pos(st.Pos()), "the reader assigns a field of a shared object: what is read for one declaration depends on the declarations before it")
+			}
+		})
 		if fn.Parent() == nil {
 			continue
 		}
@@ -100,11 +123,29 @@ func (c *Ctx) ruleReaderState() {
 	c.floor("stores to captured variables in the readers", n, 6)
 }
 
+// isAppendOfField: v = append(<load of the same field of the same object>, ...).
+func isAppendOfField(P *Program, v ssa.Value, fa *ssa.FieldAddr) bool {
+	call, ok := v.(*ssa.Call)
+	if !ok {
+		return false
+	}
+	b, ok := call.Call.Value.(*ssa.Builtin)
+	if !ok || b.Name() != "append" {
+		return false
+	}
+	u, ok := call.Call.Args[0].(*ssa.UnOp)
+	if !ok || u.Op != token.MUL {
+		return false
+	}
+	fa2, ok := u.X.(*ssa.FieldAddr)
+	return ok && fa2.Field == fa.Field && (fa2.X == fa.X || P.Desc(fa2.X) == P.Desc(fa.X))
+}
+
 // ruleAliasAll: every type assertion / type switch from types.Type to a concrete go/types node is made on an
 // un-aliased value (go.mod's go 1.25 => gotypesalias=1: `type A = T` is a *types.Alias).
 var aliasReviewed = map[string]string{
-	"implements.findTypesInPackage":         "the annotated declaration itself; an @implements on an alias declaration `type A = T` is outside the fragment (annotation belongs to the defined type)",
-	"implements.extractTypesFromTuple":      "the type of a variadic parameter is the slice the type checker builds, never an alias node",
+	"implements.findTypesInPackage":          "the annotated declaration itself; an @implements on an alias declaration `type A = T` is outside the fragment (annotation belongs to the defined type)",
+	"implements.extractTypesFromTuple":       "the type of a variadic parameter is the slice the type checker builds, never an alias node",
 	"implements.extractMethodTypesFromTuple": "the type of a variadic parameter is the slice the type checker builds, never an alias node",
 	"implements.convertTypesToInterfaceType": "string-model matcher: aliases in signatures are part of known finding KF-C05-1",
 	"implements.convertTypesToMethodType":    "string-model matcher: aliases in signatures are part of known finding KF-C05-1",
